@@ -718,4 +718,126 @@ theorem FInv_step (v : View) (dq : Id → D) (k ss : Nat) (f : List Id) (st : GS
     · rw [addWithLimit1_cap]; exact h4
   · exact hF
 
+
+/-! ### the exact regime of a small collection: nothing is ever evicted, the search set ends up closed under edges -/
+
+theorem addWithLimit1_room (dq : Id → D) (ds : DistSet D) (p : Id) (hroom : ds.items.length < ds.cap)
+    (hp : p ∉ ds.seen) : (ds.addWithLimit1 dq p).items = bubble { id := p, dist := dq p } ds.items := by
+  unfold DistSet.addWithLimit1
+  have h0 : ds.seen.contains p = false := by simpa using hp
+  have h1 : (ds.items.length == ds.cap) = false := by simp; omega
+  rw [if_neg (by simpa using hp)]
+  simp only
+  rw [if_neg (by simp [h1]), if_pos hroom]
+
+/-- invariant of a search set that never overflows: everything seen is kept -/
+structure Room (dq : Id → D) (v : View) (vecs : List Id) (ds : DistSet D) : Prop where
+  inv : DSInv dq v.hasVec ds
+  keep : ∀ i ∈ ds.seen, i ∈ ds.items.map (·.id)
+  cap : vecs.length ≤ ds.cap
+
+theorem addWithLimit1_roomInv (dq : Id → D) (v : View) (vecs : List Id) (hvecs : ∀ i, v.hasVec i = true → i ∈ vecs)
+    (ds : DistSet D) (p : Id) (hp : v.hasVec p = true) (h : Room dq v vecs ds) : Room dq v vecs (ds.addWithLimit1 dq p) := by
+  refine ⟨addWithLimit1_inv dq v.hasVec ds p hp h.inv, ?_, by rw [addWithLimit1_cap]; exact h.cap⟩
+  by_cases hs : p ∈ ds.seen
+  · have : ds.addWithLimit1 dq p = ds := by
+      unfold DistSet.addWithLimit1
+      have h0 : ds.seen.contains p = true := by simpa using hs
+      rw [if_pos h0]
+    rw [this]; exact h.keep
+  · -- there is room: the ids kept plus p are distinct ids of points with a vector
+    have hroom : ds.items.length < ds.cap := by
+      have hnd : (p :: ds.items.map (·.id)).Nodup := by
+        refine List.nodup_cons.mpr ⟨?_, h.inv.nodup⟩
+        intro hm
+        obtain ⟨e, he, rfl⟩ := List.mem_map.mp hm
+        exact hs (h.inv.sub e he)
+      have hsub : (p :: ds.items.map (·.id)) ⊆ vecs := by
+        intro i hi
+        rcases List.mem_cons.mp hi with rfl | hi
+        · exact hvecs _ hp
+        · obtain ⟨e, he, rfl⟩ := List.mem_map.mp hi
+          exact hvecs _ (h.inv.ok e he).2
+      have := List.Nodup.length_le_of_subset hnd hsub
+      simp at this
+      have := h.cap
+      omega
+    intro i hi
+    rw [addWithLimit1_room dq ds p hroom hs]
+    rcases (addWithLimit1_seen dq ds p i).mp hi with rfl | hi'
+    · exact List.mem_map.mpr ⟨_, mem_bubble.mpr (Or.inl rfl), rfl⟩
+    · obtain ⟨e, he, rfl⟩ := List.mem_map.mp (h.keep i hi')
+      exact List.mem_map.mpr ⟨e, mem_bubble.mpr (Or.inr he), rfl⟩
+
+theorem markVisited_mem' (id : Id) (items : List (Elem D)) (x : Elem D) (hx : x ∈ markVisited id items) :
+    ∃ y ∈ items, x.id = y.id ∧ (x.visited = true → y.visited = true ∨ y.id = id) := by
+  unfold markVisited at hx
+  obtain ⟨y, hy, rfl⟩ := List.mem_map.mp hx
+  refine ⟨y, hy, ?_⟩
+  split
+  · rename_i h
+    exact ⟨rfl, fun _ => Or.inr (by simpa using h)⟩
+  · exact ⟨rfl, fun h => Or.inl h⟩
+
+/-- loop invariant without a filter when the search set has room for every vector -/
+structure NInv (v : View) (dq : Id → D) (vecs : List Id) (st : GState D) : Prop where
+  room : Room dq v vecs st.search
+  closed : ∀ e ∈ st.search.items, e.visited = true → ∀ es, v.edges e.id = some es →
+    ∀ t ∈ es, v.hasVec t = true → t ∈ st.search.seen
+  entrySeen : entry ∈ st.search.seen
+
+theorem NInv_step (v : View) (dq : Id → D) (vecs : List Id) (hvecs : ∀ i, v.hasVec i = true → i ∈ vecs)
+    (filter : Option (List Id)) (ss : Nat) (st : GState D) (e : Elem D) (es : List Id)
+    (hN : NInv v dq vecs st) (he : nextUnvisited ss st.search.items = some e) (hes : v.edges e.id = some es) :
+    NInv v dq vecs (stepState v dq filter st e es) := by
+  have hem := (nextUnvisited_some ss _ e he).1
+  have hr1 : Room dq v vecs ({ st.search with items := markVisited e.id st.search.items } : DistSet D) := by
+    refine ⟨⟨?_, ?_, ?_⟩, ?_, hN.room.cap⟩
+    · show ((markVisited e.id st.search.items).map (·.id)).Nodup
+      rw [markVisited_ids]; exact hN.room.inv.nodup
+    · intro x hx
+      obtain ⟨y, hy, hid, _, _⟩ := markVisited_mem _ _ x hx
+      show x.id ∈ st.search.seen
+      rw [hid]; exact hN.room.inv.sub y hy
+    · intro x hx
+      obtain ⟨y, hy, hid, hd, _⟩ := markVisited_mem _ _ x hx
+      rw [hid, hd]; exact hN.room.inv.ok y hy
+    · intro i hi
+      show i ∈ (markVisited e.id st.search.items).map (·.id)
+      rw [markVisited_ids]; exact hN.room.keep i hi
+  have hfv : ∀ p ∈ es.filter v.hasVec, v.hasVec p = true := fun p hp => (List.mem_filter.mp hp).2
+  refine ⟨?_, ?_, ?_⟩
+  · exact addWithLimit_fold (Q := Room dq v vecs) dq _ _ (fun p => v.hasVec p = true)
+      (fun ds p hp h => addWithLimit1_roomInv dq v vecs hvecs ds p hp h) hfv hr1
+  · intro x hx hxv es' hes' t ht htv
+    show t ∈ (DistSet.addWithLimit dq _ _).seen
+    rw [addWithLimit_seen]
+    rcases addWithLimit_items dq _ _ x hx with h | ⟨h1, _, _⟩
+    · obtain ⟨y, hy, hid, hflag⟩ := markVisited_mem' _ _ x h
+      rcases hflag hxv with h1 | h1
+      · right
+        exact hN.closed y hy h1 es' (hid ▸ hes') t ht htv
+      · left
+        have : es' = es := by
+          rw [hid, h1, hes] at hes'; exact (Option.some.inj hes').symm
+        rw [this] at ht
+        exact List.mem_filter.mpr ⟨ht, htv⟩
+    · rw [h1] at hxv; simp at hxv
+  · show entry ∈ (DistSet.addWithLimit dq _ _).seen
+    rw [addWithLimit_seen]; exact Or.inr hN.entrySeen
+
+theorem nextUnvisited_none (ss : Nat) (items : List (Elem D)) (h : nextUnvisited ss items = none) (hl : items.length ≤ ss) :
+    ∀ e ∈ items, e.visited = true := by
+  unfold nextUnvisited at h
+  rw [Nat.min_eq_left hl, List.take_length] at h
+  intro e he
+  have := List.find?_eq_none.mp h e he
+  simpa using this
+
+
+/-- reachability from the entry node along stored edges -/
+inductive Reach (g : Graph) : Id → Prop
+  | entry : Reach g entry
+  | step {i t : Id} {es : List Id} : Reach g i → g.edges i = some es → t ∈ es → Reach g t
+
 end Sema.C03
